@@ -52,6 +52,15 @@ type doneStorm struct {
 	Mod     string `json:"mod"`
 	N       int    `json:"n"`
 	Callers int    `json:"callers"`
+	// Mode "" : N signalled microtasks, each concluded by Callers goroutines calling the
+	//           same done() at the same moment.
+	// Mode "conclude": N rounds; in each, Callers different microtasks of the module
+	//           (signalled ones, or Start* functions that return) conclude at the same
+	//           instant (spinning on a barrier). Afterwards every item of the module with
+	//           by_storm set is started (signalled high-priority microtask) at the same
+	//           instant at which Callers other microtasks conclude: an increment of the
+	//           module's counter racing decrements.
+	Mode string `json:"mode,omitempty"`
 }
 
 type c05Mod struct {
@@ -94,6 +103,7 @@ type c05Item struct {
 	Never     bool   `json:"never,omitempty"`     // never returns (stop-timeout path)
 	AtStop    bool   `json:"at_stop,omitempty"`   // submitted by a harness goroutine the moment the module's context was cancelled
 	FromPrep  bool   `json:"from_prep,omitempty"` // launched from inside the module's prep function (gets the module's initial context)
+	ByStorm   bool   `json:"by_storm,omitempty"`  // started by the done storm (see doneStorm)
 	mod       *c05Mod
 }
 
@@ -587,9 +597,115 @@ func (h *c05H) launch(it *c05Item) {
 	}
 }
 
+// syncPoint lets n goroutines pass a point at (nearly) the same instant without burning
+// CPU while they wait for each other to be scheduled: they first block until all have
+// arrived, are woken together and then spin only for the short stagger of those wake-ups
+// (at most 200 us).
+type syncPoint struct {
+	n       int32
+	arrived atomic.Int32
+	awake   atomic.Int32
+	arm     chan struct{}
+	once    sync.Once
+}
+
+func newSyncPoint(n int) *syncPoint { return &syncPoint{n: int32(n), arm: make(chan struct{})} }
+
+func (sp *syncPoint) pass() {
+	if sp.arrived.Add(1) == sp.n {
+		sp.once.Do(func() { close(sp.arm) })
+	}
+	<-sp.arm
+	sp.awake.Add(1)
+	for t0 := time.Now(); sp.awake.Load() < sp.n; {
+		if time.Since(t0) > 200*time.Microsecond {
+			break
+		}
+	}
+}
+
+// barrier runs the functions at the same instant.
+func barrier(fns ...func()) {
+	sp := newSyncPoint(len(fns))
+	var wg sync.WaitGroup
+	for _, fn := range fns {
+		fn := fn
+		wg.Add(1)
+		go func() {
+			defer wg.Done()
+			sp.pass()
+			fn()
+		}()
+	}
+	wg.Wait()
+}
+
+func (h *c05H) concludeStorm(ds *doneStorm) {
+	m := h.mods[ds.Mod]
+	signalled := func(i int) func() {
+		switch i % 3 {
+		case 0:
+			return m.SignalHighPriorityMicroTask()
+		case 1:
+			return m.SignalMicroTask(mtMaxDelay)
+		}
+		return m.SignalLowPriorityMicroTask(mtMaxDelay)
+	}
+	for r := 0; r < ds.N; r++ {
+		if r%2 == 0 {
+			var fns []func()
+			for c := 0; c < ds.Callers; c++ {
+				fns = append(fns, signalled(r+c))
+			}
+			barrier(fns...)
+		} else {
+			// functions of Start* microtasks that return at the same instant
+			sp := newSyncPoint(ds.Callers)
+			var wg sync.WaitGroup
+			for c := 0; c < ds.Callers; c++ {
+				wg.Add(1)
+				m.StartHighPriorityMicroTask("storm", func(context.Context) error {
+					defer wg.Done()
+					sp.pass()
+					return nil
+				})
+			}
+			wg.Wait()
+		}
+	}
+	// increments racing decrements: the by_storm items are started while others conclude
+	started := 0
+	for _, it := range h.mspec[ds.Mod].Items {
+		if !it.ByStorm {
+			continue
+		}
+		it := it
+		var fns []func()
+		for c := 0; c < ds.Callers; c++ {
+			fns = append(fns, signalled(c))
+		}
+		fns = append(fns, func() {
+			done := m.SignalHighPriorityMicroTask()
+			go func() {
+				h.body(it, 0, nil)
+				done()
+				h.lat.fire("item.ret|" + it.ID)
+			}()
+		})
+		barrier(fns...)
+		started++
+	}
+	_, _, mt := m.VerifModuleCounts()
+	h.log.Rec("donestorm", ds.Mod, "conclude", map[string]any{"rounds": ds.N, "together": ds.Callers, "items_started_by_storm": started, "module_microtask_count_after": int(mt)})
+}
+
 func (h *c05H) doneStorm(ds *doneStorm) {
 	m := h.mods[ds.Mod]
 	if m == nil {
+		return
+	}
+	if ds.Mode == "conclude" {
+		h.concludeStorm(ds)
 		return
 	}
 	for i := 0; i < ds.N; i++ {
@@ -602,24 +718,11 @@ func (h *c05H) doneStorm(ds *doneStorm) {
 		default:
 			done = m.SignalLowPriorityMicroTask(mtMaxDelay)
 		}
-		var ready atomic.Int32
-		var goFlag atomic.Bool
-		var wg sync.WaitGroup
-		for c := 0; c < ds.Callers; c++ {
-			wg.Add(1)
-			go func() {
-				defer wg.Done()
-				ready.Add(1)
-				for !goFlag.Load() {
-				}
-				done()
-			}()
+		fns := make([]func(), ds.Callers)
+		for c := range fns {
+			fns[c] = done
 		}
-		for int(ready.Load()) < ds.Callers {
-			runtime.Gosched()
-		}
-		goFlag.Store(true)
-		wg.Wait()
+		barrier(fns...)
 	}
 	_, _, mt := m.VerifModuleCounts()
 	h.log.Rec("donestorm", ds.Mod, "", map[string]any{"n": ds.N, "callers": ds.Callers, "module_microtask_count_after": int(mt)})
@@ -652,7 +755,7 @@ func (h *c05H) launchCycle(cyc int) {
 						h.launch(it)
 					}
 				}()
-			case it.FromStart || it.FromPrep:
+			case it.FromStart || it.FromPrep || it.ByStorm:
 				if it.Settled {
 					settled = append(settled, it) // only waited for
 				}
@@ -673,7 +776,7 @@ func (h *c05H) launchCycle(cyc int) {
 		}
 	}
 	for _, it := range settled {
-		if !it.FromStart && !it.FromPrep {
+		if !it.FromStart && !it.FromPrep && !it.ByStorm {
 			h.launch(it)
 		}
 	}
